@@ -86,6 +86,28 @@ Definition cverify (c : cproof) : res :=
          end
        end.
 
+(** [Verify] WITHOUT the call [rp.Validate(dataRoot)] of celestia-app's RowProof ("the row proofs are walked twice"): what is
+    left is the node's own [Validate], whose row count is computed in uint32 (mod 2^32), and [VerifyProof] over the row
+    proofs present.  Kept as an executable variant: CommitmentProofs.v refutes soundness for it (a proof without any
+    component and an inverted / wrapped row range verifies against every data root). *)
+Definition cverify_norowcheck (c : cproof) : res :=
+  if cp_root_empty c then RErr
+  else if cp_com_empty c then RErr
+  else if negb (cvalidate c) then RErr
+  else if negb (cp_hfb_eq c) then RErr
+  else match cp_width c with
+       | None => RErr
+       | Some _ =>
+         match srp_loop (cp_nroots c) 0 (cp_srps c) with
+         | None => RErr
+         | Some cursor => if negb (Nat.eqb cursor (cp_nroots c)) then RErr
+                          else if all_rows_verify c then ROk else RErr
+         end
+       end.
+
+(** the row count as the node's [Validate] computes it: [int(EndRow-StartRow+1)] on uint32 operands *)
+Definition row_count_u32 (start_row end_row : Z) : Z := (end_row - start_row + 1) mod 2 ^ 32.
+
 (** * Structural presentation *)
 Section Gen.
   Variables D C T NP MP : Type.                               (* NMT digests (subtree roots, row roots); commitments; data roots *)
@@ -173,6 +195,25 @@ Section Gen.
                             else if rows_verify root (g_row_proofs g) (g_row_roots g) then ROk else RErr
            end
          end.
+
+  (** the variant without [rp.Validate(dataRoot)] (see [cverify_norowcheck]) *)
+  Definition verify_gen_norowcheck (g : gproof) (root : T) (com : C) : res :=
+    if t_empty root then RErr
+    else if c_empty com then RErr
+    else if negb (gvalidate g) then RErr
+    else if negb (c_eqb com (hfb (g_roots g))) then RErr
+    else match width_of (total_shares (g_sproofs g)) with
+         | None => RErr
+         | Some w =>
+           match gloop (g_roots g) w 0 (g_sproofs g) (g_row_roots g) with
+           | None => RErr
+           | Some cursor => if negb (Nat.eqb cursor (length (g_roots g))) then RErr
+                            else if rows_verify root (g_row_proofs g) (g_row_roots g) then ROk else RErr
+           end
+         end.
+
+  (** a proof from which every component was dropped, claiming rows [start_row .. end_row] *)
+  Definition trimmed (start_row end_row : Z) : gproof := mkG [] [] [] [] start_row end_row.
 
   (** ** what the harness observes of a proof: structure + the primitives' answers along the cursor *)
   Fixpoint observe_srps (roots : list D) (w : option Z) (cursor : option nat) (ps : list (option sproof)) (rs : list D)
